@@ -65,7 +65,8 @@ void NameSet::add(DataKey& p_key, const char* str)
       char* tmp = &(mem[idx]);
       memused  += int(strlen(str)) + 1;
 
-      spxSnprintf(tmp, SPX_MAXSTRLEN, "%s", str);
+      // strlen(str) + 1 bytes have been reserved for the name above
+      spxSnprintf(tmp, strlen(str) + 1, "%s", str);
       *(set.create(p_key)) = idx;
       Name memname(tmp);
       hashtab.add(memname, p_key);
